@@ -6,7 +6,6 @@ import (
 	"errors"
 	"fmt"
 	"sort"
-	"strings"
 
 	"github.com/gittuf/gittuf/internal/policy"
 	sslibdsse "github.com/gittuf/gittuf/internal/third_party/go-securesystemslib/dsse"
@@ -271,13 +270,10 @@ func c05Judge(c *fw.Ctx, e *c05Env, v *policy.SignatureVerifier, cs c05Case) {
 		}
 		used, err := v.Verify(scen.Ctx, gitID, c05Envelope(cs))
 		if err != nil && !errors.Is(err, policy.ErrVerifierConditionsUnmet) && !errors.Is(err, policy.ErrInvalidVerifier) {
-			if strings.Contains(err.Error(), "no signature found") {
-				// an envelope without signatures is reported as an error by the DSSE layer: a rejection
-				err = policy.ErrVerifierConditionsUnmet
-			} else {
-				c.Violation("unexpected-error", map[string]string{"error": trunc(err.Error(), 50)}, "Verify returned an unexpected error: "+err.Error(), cs)
-				return
-			}
+			// any other error (e.g. the DSSE layer refusing an envelope without
+			// signatures) is a rejection as far as the property is concerned; whether
+			// the rejection is justified is decided below like for every other one
+			c.Count("observed:rejected-with-other-error", 1)
 		}
 		success := err == nil
 		c.Count(fmt.Sprintf("success=%v", success), 1)
